@@ -178,7 +178,8 @@ Silence(pre, fn, x) ==
   ELSE CASE f = "Decstbm" /\ ~(LET tp == NN(fn.a[1]) bt == IF fn.a[2] = 0 THEN pre.rows ELSE fn.a[2] IN 1 <= tp /\ tp < bt /\ bt <= pre.rows)
               -> [x EXCEPT !.col = 0, !.row = 0, !.pw = FALSE]                       \* does an INVALID DECSTBM home?
          [] f \in {"Lf", "Nel"} /\ IsScrollingStep(pre, fn)
-              -> EraseMarks([x EXCEPT !.col = Min2(@, x.cols - 1), !.pw = FALSE], (pre.top - 1)..pre.bottom)   \* ScrollingLfKeepsPendingWrap
+              -> EraseMarks([x EXCEPT !.col = IF f = "Lf" /\ pre.newline THEN 0 ELSE Min2(@, x.cols - 1), !.pw = FALSE], (pre.top - 1)..pre.bottom)   \* ScrollingLfKeepsPendingWrap
+         [] f = "Lf" /\ pre.newline -> [x EXCEPT !.col = 0, !.pw = FALSE]               \* what the new-line mode adds to LF: no statement
          [] f \in {"Su", "Dl"} -> EraseMarks(x, ((IF f = "Su" THEN pre.top ELSE pre.row) - 1)..pre.rows)       \* PartialRegionScrollClearsWrapMark
          [] f = "Sd" -> EraseMarks(x, {pre.top - 1, pre.bottom})                      \* marks of the rows adjacent to a scrolled range
          [] f = "Il" -> EraseMarks(x, {pre.row - 1, IF pre.row <= pre.bottom THEN pre.bottom ELSE pre.rows - 1})
